@@ -567,9 +567,9 @@ theorem subL_eq (i : Int) : ∀ (ts : List Ty), (subL i ts).1 = ts.map (fun v =>
     · exact hf.1
     · exact h2 hf.2 w hw
 
-theorem subscript_sound (o r : Obj) (v : Ty) (i : Int) (hm : mem tb o v = true) (hs : subObj o i = some r)
-    (hf : (subscript v i).2.none = true) : mem tb r (subscript v i).1 = true := by
-  unfold subscript at hf ⊢
+theorem subscript0_sound (o r : Obj) (v : Ty) (i : Int) (hm : mem tb o v = true) (hs : subObj o i = some r)
+    (hf : (subscript0 v i).2.none = true) : mem tb r (subscript0 v i).1 = true := by
+  unfold subscript0 at hf ⊢
   split at hf
   · simp [mem, memAny] at hm
   · rename_i ts _
@@ -581,6 +581,12 @@ theorem subscript_sound (o r : Obj) (v : Ty) (i : Int) (hm : mem tb o v = true) 
     rw [unite_mem', h1]
     exact List.any_eq_true.mpr ⟨_, List.mem_map.mpr ⟨m, hmm, rfl⟩, sub1_sound o r m i hom hs (h2 hf m hmm)⟩
   · exact sub1_sound o r v i hm hs hf
+
+theorem subscript_sound (o r : Obj) (v : Ty) (i : Int) (hm : mem tb o v = true) (hs : subObj o i = some r)
+    (hf : (subscript v i).2.none = true) : mem tb r (subscript v i).1 = true := by
+  unfold subscript at hf ⊢
+  simp only [flags_or_none] at hf
+  exact subscript0_sound o r v i hm hs hf.1
 
 
 /-! ## 6. displays -/
